@@ -76,6 +76,9 @@ static std::shared_ptr<M> pattern_ord(int r, int c, unsigned long mask, const st
 
 // what the backend interface shows of a view: rows / cols / nonzeros, the rows as enumerated by
 // row_begin, the CRS built by the generic copy constructor, and y = 1 * V * x + 0 * (NaN)
+// spmv directly on the view when the adapter supports it (builtin matrix ops), else on the CRS built from it
+template <class View> bool spmv_if(const View &V, const M &, const std::vector<double> &x, std::vector<double> &y, std::true_type) { backend::spmv(1.0, V, x, 0.0, y); return true; }
+template <class View> bool spmv_if(const View &, const M &C, const std::vector<double> &x, std::vector<double> &y, std::false_type) { backend::spmv(1.0, C, x, 0.0, y); return false; }
 template <class View>
 void rec_view(const char *ad, const char *it, const char *tag, const M &A, const View &V, const std::string &extra = "") {
     vr::obj o; o.str("k", "view").str("ad", ad).str("it", it).str("tag", tag);
@@ -91,8 +94,8 @@ void rec_view(const char *ad, const char *it, const char *tag, const M &A, const
         for (size_t p = 0; same && p < col.size(); ++p) same = C.col[p] == col[p] && C.val[p] == val[p];
         std::vector<double> x(m), y(n, std::numeric_limits<double>::quiet_NaN());
         for (size_t j = 0; j < m; ++j) x[j] = (double)((j * 7 + 3) % 5) - 2;
-        backend::spmv(1.0, V, x, 0.0, y);
-        o.raw("A", J(A, o)).raw("out", q.done()).b("ctor_same", same).dbls("x", x).dbls("y", y);
+        bool direct = spmv_if(V, C, x, y, std::integral_constant<bool, backend::detail::use_builtin_matrix_ops<View>::value>());
+        o.raw("A", J(A, o)).raw("out", q.done()).b("ctor_same", same).b("spmv_direct", direct).dbls("x", x).dbls("y", y);
     } catch (const std::exception &e) { o.str("exc", e.what()); }
     std::string s = o.done();
     if (!extra.empty()) s = s.substr(0, s.size() - 1) + "," + extra + "}";
@@ -218,7 +221,10 @@ static void v_scaled(const M &A, vr::rng &g, const char *tag) {
     size_t n = A.nrows; std::vector<double> s(n + 1, 1.0);
     for (size_t i = 0; i < n; ++i) { int k = g.range(0, 3); s[i] = k == 0 ? 1 : (k == 1 ? 2 : (k == 2 ? -1 : 3)); }
     std::ostringstream e; e << "\"s\":["; for (size_t i = 0; i < n; ++i) e << (i ? "," : "") << (long long)s[i]; e << "],\"shift\":0";
-    rec_view("scaled_matrix", "given scale", tag, A, adapter::scaled_matrix<M, std::vector<double>>(A, s), e.str());
+    // (scaled_matrix wraps matrices whose row iterator is constructible from (matrix, row): tuples, Eigen)
+    std::vector<ptrdiff_t> ptr(A.ptr, A.ptr + n + 1), col(A.col, A.col + A.nnz); std::vector<double> val(A.val, A.val + A.nnz);
+    auto T = std::tie(n, ptr, col, val);
+    rec_view("scaled_matrix", "given scale", tag, A, adapter::scaled_matrix<decltype(T), std::vector<double>>(T, s), e.str());
 }
 
 // ---- block adapter (sorted rows only: its documentation requires them), b = 2, 3; the block CRS it produces
